@@ -172,3 +172,5 @@ func firstLines(s string, n int) string {
 	}
 	return strings.Join(l, "\n")
 }
+
+func stats_count(prop, name string, n int) { stats.For(prop).Count(name, int64(n)) }
